@@ -29,7 +29,7 @@ def run(ck):
     np.seterr(all="ignore")
     rng = ck.rng
     thorough = ck.tier == "thorough"
-    NCONV = 10 if thorough else 4
+    NCONV = ck.n(4, 10)
     worst = {}
 
     def note(k, v):
